@@ -25,21 +25,28 @@ var globalValues map[string]r.Element
 
 var GlobalValues map[string]r.Element
 
-// init function
-func init() {
-
+// NewGlobalValues - build a fresh set of predefined values. Some of them can be changed by
+// a program (the constructor of “异常” can be redefined, “数值” has in-place methods such as
+// 自增), so every execution gets its own set: nothing a program does to a predefined value is
+// visible to the executions that follow it or run beside it in the same process.
+func NewGlobalValues() map[string]r.Element {
 	//// predefined values - those variables (symbols) are defined before
 	//// any execution procedure.
 	//// NOTICE: those variables are all constants!
-	globalValues = map[string]r.Element{
+	return map[string]r.Element{
 		"真":    ZnConstBoolTrue,
 		"假":    ZnConstBoolFalse,
 		"空":    ZnConstNull,
-		"异常":   ZnConstExceptionClass,
+		"异常":   newExceptionModel(),
 		"显示":   ZnConstDisplayFunc,
 		"取随机数": ZnConstGetRandomFloat,
 		"数值":   &value.Number{},
 	}
+}
+
+// init function
+func init() {
+	globalValues = NewGlobalValues()
 
 	GlobalValues = globalValues
 }
